@@ -353,6 +353,11 @@ def check_geoms(spec, ctx):
         ctx.fail("have_temporal_overlap not symmetric", spec, None, None, kind="symmetry")
     if bool(geometry.have_frequency_overlap(g2, g1, **kwc)) != bool(got_f):
         ctx.fail("have_frequency_overlap not symmetric", spec, None, None, kind="symmetry")
+    import pickle
+
+    u1, u2 = pickle.loads(pickle.dumps(g1)), pickle.loads(pickle.dumps(g2))
+    if bool(geometry.operations.have_temporal_overlap(u1, u2, **kwc)) != bool(got_t) or bool(geometry.have_frequency_overlap(u1, u2, **kwc)) != bool(got_f):
+        ctx.fail("overlap predicates on unpickled geometries differ from the answers for the originals", spec, None, None, kind="pickle")
     # a copy of g1 moved in time (derived from the object that was just measured) is judged by its own coordinates
     from vf.oracles.shp import shift_spec_time
 
